@@ -79,6 +79,11 @@ fire("C19", "Coulomb table reloaded on every call", "R4.rebind-under-is-None",
      ("sub", "coulomb.py", "    if _ATOMIC_GAUSS_PARAMS_CACHE is None:\n", "    if True:\n"))
 fire("C19", "module-level table edited by a function", "R1.no-write-to-shared-state",
      ("sub", "angular.py", "        degrees = np.zeros(len(sizes), dtype=int)\n", "        degrees = np.zeros(len(sizes), dtype=int)\n        LEBEDEV_NPOINTS[0] = 0\n"))
+fire("C19", "value changed after it was stored (first grid differs from cached ones)", "R5.cache-transparent",
+     ("sub", "angular.py", "            if cache:\n                cache_dict[degree] = points, weights\n",
+      "            if cache:\n                cache_dict[degree] = points, weights\n            weights = weights / np.sum(weights)\n"))
+fire("C19", "cache hit swaps the stored pair", "R5.cache-transparent",
+     ("sub", "angular.py", "            points, weights = cache_dict[degree]\n", "            weights, points = cache_dict[degree]\n"))
 silent("C19", "freeze-on-fill instead of copy-on-read",
        ("sub", "angular.py", "            if cache:\n                cache_dict[degree] = points, weights\n",
         "            if cache:\n                points.setflags(write=False)\n                weights.setflags(write=False)\n                cache_dict[degree] = points, weights\n"),
